@@ -260,6 +260,10 @@ fn corr(seed: u64, n: usize) -> Vec<String> {
         for _ in 0..np { cases.push(rand_state(&mut r, w)); }
         for s in cases {
             let o = if w == 12 { perm64_raw(&s) } else { permjive_raw(&s) };
+            if out.len() % 7 == 0 && s.iter().all(|&x| x < M64) {
+                // the raw model (generated f64 arithmetic + mds_multiply on internal words) on a sample of the states
+                out.push(format!("{}.permraw {} => {}", name, hx(&s), res(o.clone(), |v| hx(&v))));
+            }
             out.push(format!("{}.perm {} => {}", name, hx(&int64(&s)), res(o, |v| hx(&int64(&v)))));
         }
     }
@@ -620,6 +624,7 @@ fn probe() {
         let b = vec![0xABu8; l];
         println!("Rp64_256::hash([0xAB; {}]) = {}", l, show(&rp64::hash(&b)));
         println!("Rp62_248::hash([0xAB; {}]) = {}", l, show(&rp62::hash(&b)));
+        println!("RpJive64_256::hash([0xAB; {}]) = {}", l, show(&jive::hash(&b)));
     }
     // defect 2: mds_multiply returns a non-canonical internal word
     let mut s = vec![0u64; 12];
